@@ -210,6 +210,29 @@ fn gen_scenario(kind: Kind, w: &mut W) -> Scenario {
     // sixteen has one connection with a long call history, one in sixteen (C10) long streams
     let scale = t.draw(16);
     match kind {
+        Kind::C10 if scale == 11 && t.draw(16) == 15 => {
+            // *Width*: several hundred connections parked in open reply streams at the same time
+            // (beyond any 8-bit counter or fixed-size window over the list of streams). Every
+            // subscriber is owed its items wherever it sits in that list; a few plain callers talk
+            // meanwhile.
+            let n_sub = 257 + t.draw(160);
+            for c in 0..n_sub {
+                let items = 1 + t.draw(2);
+                let mut calls = vec![CallSpec::Stream { flags: vec![0; items], ends: t.draw(2) == 1 }];
+                if t.draw(4) == 0 {
+                    calls.push(CallSpec::Echo { pad: 2, oneway: false });
+                }
+                clients.push(ClientSpec { cid: 1_000 + c as u32, calls, faults: vec![], pingpong: false, closes: false, after_quiet: false });
+                late.push(None);
+                real.push(None);
+            }
+            for c in 0..1 + t.draw(3) {
+                let calls: Vec<CallSpec> = (0..1 + t.draw(4)).map(|_| gen_call(t, false, true)).collect();
+                clients.push(ClientSpec { cid: 10 + c as u32, calls, faults: vec![], pingpong: t.draw(2) == 1, closes: false, after_quiet: false });
+                late.push(None);
+                real.push(None);
+            }
+        }
         Kind::C08 | Kind::C10 => {
             let n = if scale == 15 { 8 + t.draw(33) } else { 1 + t.draw(if kind == Kind::C08 { 4 } else { 3 }) };
             let long_client = if scale == 14 { Some(t.draw(n)) } else { None };
@@ -351,7 +374,14 @@ fn gen_scenario(kind: Kind, w: &mut W) -> Scenario {
                     // single caller: one complete call, appearing once flooder f has been served k replies
                     let f = t.draw(n_flood);
                     let k = if wide { [32_700usize, 65_400][t.draw(2)] + t.draw(400) } else if crowd > 0 { 150 + t.draw(340) } else { t.draw(20) };
-                    let call = if (scale == 12 || scale == 13) && !yield_first { CallSpec::Len { pad: big_pad(t, scale == 13), oneway: false } } else { CallSpec::Echo { pad: t.draw(8), oneway: false } };
+                    let call = if scale == 13 && !yield_first && t.draw(24) == 23 {
+                        // a waiting call of 17..24 MiB (tens of thousands of reads of one connection in a row)
+                        CallSpec::Len { pad: (17 << 20) + t.draw(7 << 20), oneway: false }
+                    } else if (scale == 12 || scale == 13) && !yield_first {
+                        CallSpec::Len { pad: big_pad(t, scale == 13), oneway: false }
+                    } else {
+                        CallSpec::Echo { pad: t.draw(8), oneway: false }
+                    };
                     clients.push(ClientSpec { cid: 10 + c as u32, calls: vec![call], faults: vec![], pingpong: false, closes: false, after_quiet: false });
                     late.push(Some((f, k)));
                     singles.push(c);
